@@ -494,6 +494,14 @@ func VerifC17Op() {
 				}
 			}
 			vsym.Assert(same, "argument-slice-modified")
+		case 7: // three members, then the THIRD member is changed: the result must not follow
+			r = ParOr(w, a, b, c)
+			want = vsym.Or(sa.has(y), vsym.Or(sb.has(y), sc.has(y)))
+			z := v64Arg()
+			wantZ := vsym.Or(sa.has(z), vsym.Or(sb.has(z), sc.has(z)))
+			c.Add(z)
+			vsym.Assert(v64Has(r, z) == wantZ, "result-changed-by-mutating-a-member")
+			c.Remove(y)
 		case 4: // only one non-empty member: the result is still a bitmap of its own
 			r = ParOr(w, NewBitmap(), a)
 			want = sa.has(y)
